@@ -166,7 +166,7 @@ fn crafted(i: u64) -> Case {
         rate: 44100,
         len: frames * cfg.block_size - (i % 5) as usize,
         chans: (0..channels).map(|c| ChanSpec { segs: vec![Seg { class: classes[((i + c as u64) % 6) as usize], amp: 3, p: 1000 + i as u32 }, Seg { class: classes[((i + 3) % 6) as usize], amp: 1, p: 7 }] }).collect(),
-        rel: (i % 5) as u8,
+        rel: (i % 9) as u8,
         seed: i,
         explicit: None,
     };
